@@ -12,8 +12,8 @@ FAULT_CLASSES4 = 2
 def plan(tier, seed):
     quick = tier == "quick"
     if quick:
-        shards = [dict(bin=("opt", "c12"), args=["--mode", "quick", "--nshards", 16, "--cases", 400000,
-                                                 "--inserts", 200000, "--fsamples", 150000, "--fpoints4", 5])
+        shards = [dict(bin=("opt", "c12"), args=["--mode", "quick", "--nshards", 16, "--cases", 700000,
+                                                 "--inserts", 200000, "--fsamples", 150000, "--fpoints4", 6])
                   for _ in range(16)]
         for i in (16, 17):   # ASan+UBSan sample: one shard per 3-man class of this run
             shards.append(dict(bin=("asan", "c12"), shard=i, args=["--mode", "asan", "--nshards", 2, "--points", 4, "--inserts", 50000]))
@@ -48,7 +48,7 @@ def plan(tier, seed):
               "(refchess) must be found and its value must satisfy the minimax recurrence over the probed values of all refchess "
               "successors; an illegal one (side not to move in check) and out-of-scope positions (pawns, castling rights, other "
               "material, 5 men) must be 'not found'; probeDTM at ply p equals ply 0 shifted by p. quick: two seeded 3-man classes "
-              "enumerated completely (one of KQvK/KRvK/KvKQ/KvKR and one other), 16 seeded 4-man tables with 4*10^5 random "
+              "enumerated completely (one of KQvK/KRvK/KvKQ/KvKR and one other), 16 seeded 4-man tables with 7*10^5 random "
               "placements each; thorough: all 44 tables, every placement on 64^n squares x side to move. Fault sweep: generation "
               "inside updateTB aborted at every clock call (clock hook = call counter) by stop (maxTimeMillis:=0; phase-1/2 time "
               "checks, before every retrograde iteration) and by the time limit (phase-1/2 time checks), after three kinds of "
